@@ -1223,11 +1223,23 @@ class Interp:
             else:
                 values[a.vararg.arg] = SList(extra, "tuple")
         if a.kwarg is not None:
-            values[a.kwarg.arg] = SDict(kw)
+            if a.kwarg.arg in kw and isinstance(kw[a.kwarg.arg], SDict) and len(kw) == 1:
+                values[a.kwarg.arg] = kw.pop(a.kwarg.arg)      # (verification harness passes **kwargs by name)
+            else:
+                values[a.kwarg.arg] = SDict(kw)
         elif kw:
             raise SymRaise(ExcVal(ExtClass("builtins.TypeError"), (f"unexpected keyword {sorted(kw)}",)),
                            where=f"call {fv.qualname}")
         return values
+
+    def _applicable(self, ctr, values):
+        if ctr.applicable is None:
+            return True
+        from .spec import NS
+        try:
+            return bool(ctr.applicable(NS(values)))
+        except Exception:
+            return False
 
     def is_generator(self, fv):
         r = getattr(fv, "_isgen", None)
@@ -1268,7 +1280,7 @@ class Interp:
         if key and not as_root and self.modular and key in self.contracts and key != self.root:
             ctr = self.contracts[key]
             if ctr.usable_modularly and (ctr.returns is not None or ctr.result is not None or ctr.yields_item is not None
-                                         or not ctr.ensures):
+                                         or not ctr.ensures) and self._applicable(ctr, values):
                 from .spec import apply_contract
                 self.used_contracts.add(key)
                 return apply_contract(self, ctr, fv, values)
